@@ -168,6 +168,10 @@ def stream_after_harvest(ctx, ntables):
 
 
 def run(ctx, built):
+    # the entity counters of the nodes (asked about low_threshold when splitting and about the stub thresholds by the trees above): live counters
+    # against the model's set semantics
+    import anon_streams as AS
+    AS.stream_lcf(ctx, built, None, parts=("live",))
     stream_after_harvest(ctx, ctx.scale(12, 150))
     TS.stream_tree(ctx, built, ctx.scale(25, 400), oracle(ctx), max_rows=ctx.scale(160, 400))
     TS.stream_tree(ctx, built, ctx.scale(5, 60), oracle(ctx), max_rows=ctx.scale(250, 1500), params="default", name="S-tree-default")
